@@ -73,7 +73,8 @@ class Check:
                 self.violation(f"{self.pid}.model", {"model": name, "violated": ",".join(res.violated)},
                                {"tlc_tail": res.out.splitlines()[-60:]})
         else:
-            if expect not in res.violated:
+            wanted = (expect,) if isinstance(expect, str) else tuple(expect)
+            if not any(w in res.violated for w in wanted):
                 self.machinery.append(f"deviation model {name} was expected to violate {expect} but TLC reported "
                                       f"{res.violated or 'no error'}: the invariant may be vacuous")
 
